@@ -96,7 +96,8 @@ type Check struct {
 	AuxChecked    int      `json:"aux_checked,omitempty"`
 	AuxFail       string   `json:"aux_fail,omitempty"`
 	AuxFailGroups []string `json:"aux_fail_groups,omitempty"`
-	PreAgg        bool     `json:"preagg"` // the shard classified the statement as eligible for the statistics shortcut
+	PreAgg        bool     `json:"preagg"`        // the shard classified the statement as eligible for the statistics shortcut
+	SchemaPreAgg  bool     `json:"schema_preagg"` // executor.QuerySchema.MatchPreAgg as the shard computed it (the hint is tested by the cursors)
 	Compared      bool     `json:"compared"`
 	Skipped       string   `json:"skipped,omitempty"`
 	Groups        []Agg    `json:"groups"`
@@ -768,6 +769,7 @@ func (h *History) query(sh *tsdrv.Shard, opi int, r *gen.Rand, files []tsdrv.Fil
 	}
 	if info != nil {
 		c.PreAgg = info.MatchPreAgg && !c.Hint
+		c.SchemaPreAgg = info.MatchPreAgg
 	}
 	c.Compared = c.Hint || c.Filter || c.Bucket > 0 || !h.Dup
 	if !c.Compared {
@@ -1257,6 +1259,12 @@ func main() {
 			mcs = append(mcs, runMemCase(mr.Fork()))
 		}
 		_ = enc.Encode(map[string]interface{}{"memcases": mcs})
+		ar := gen.FromEnv(5151)
+		var acs []AggCase
+		for i := 0; i < 6*n; i++ {
+			acs = append(acs, runAggCase(ar.Fork()))
+		}
+		_ = enc.Encode(map[string]interface{}{"aggcases": acs})
 	}
 	master := gen.FromEnv(9)
 	for i := 0; i < n; i++ {
